@@ -1010,3 +1010,9 @@ func (x *g) capsName() string {
 	}
 	return x.id("Lbl")
 }
+
+// WithoutDefault returns the same fonts without a defaultFontId (a legal config).
+func (f *FontFile) WithoutDefault() *FontFile {
+	g := &FontFile{DefaultFontID: "", Fonts: f.Fonts, ids: f.ids}
+	return g
+}
